@@ -23,6 +23,12 @@ func TestMain(m *testing.M) { harness.Main(m, "C08") }
 
 func meta(v px.Ver) map[string]string { return map[string]string{"version": v.String()} }
 
+// metaShape adds the structure the tree must have (kinds, roles, values of the reference / model), so
+// that a recorded case can be replayed from the replay file alone.
+func metaShape(v px.Ver, want ast.Vertex) map[string]string {
+	return map[string]string{"version": v.String(), "expected_shape": astx.Shape(want)}
+}
+
 func parseOK(src []byte, v px.Ver) (px.Result, string) {
 	r := px.Parse(src, v, true)
 	if r.Panic != "" {
@@ -49,7 +55,7 @@ func TestTriviaVariants(t *testing.T) {
 			harness.Fail(rt, "reference-rejected", refSrc, meta(v), "[%s] reference rendering (single spaces) does not parse cleanly: %s\nsource: %q", v, bad, refSrc)
 		}
 		if d := astx.Equal(rr.Root, c.Root, astx.Structure); d != "" {
-			harness.Fail(rt, "reference-vs-model", refSrc, meta(v), "[%s] reference rendering parses to a different structure than the generator's model: %s\nsource: %q", v, d, refSrc)
+			harness.Fail(rt, "reference-vs-model", refSrc, metaShape(v, c.Root), "[%s] reference rendering parses to a different structure than the generator's model: %s\nsource: %q", v, d, refSrc)
 		}
 		refShape := astx.Clone(rr.Root)
 		k := rapid.IntRange(2, 5).Draw(rt, "variants")
@@ -67,7 +73,7 @@ func TestTriviaVariants(t *testing.T) {
 				harness.Fail(rt, "variant-rejected", src, meta(v), "[%s] the program parses cleanly with single spaces but not with this trivia: %s\nvariant: %q\nreference: %q", v, bad, src, refSrc)
 			}
 			if d := astx.Equal(r.Root, refShape, astx.Structure); d != "" {
-				harness.Fail(rt, "structure-changed", src, meta(v), "[%s] trivia changed the tree (variant vs reference): %s\nvariant: %q\nreference: %q", v, d, src, refSrc)
+				harness.Fail(rt, "structure-changed", src, metaShape(v, refShape), "[%s] trivia changed the tree (variant vs reference): %s\nvariant: %q\nreference: %q", v, d, src, refSrc)
 			}
 			if len(lay.Classes) >= 2 && lay.Tokens >= 4 {
 				harness.NonTrivial(src, fmt.Sprintf("[%s classes=%d] %q", v, len(lay.Classes), trunc(src, 300)))
@@ -95,7 +101,7 @@ func TestLargeVariants(t *testing.T) {
 			harness.Fail(rt, "reference-rejected", ref.Src, meta(v), "[%s] reference rendering (single spaces) of a large program does not parse cleanly: %s", v, bad)
 		}
 		if d := astx.Equal(rr.Root, c.Root, astx.Structure); d != "" {
-			harness.Fail(rt, "reference-vs-model", ref.Src, meta(v), "[%s] reference rendering of a large program parses to a different structure than the generator's model: %s", v, d)
+			harness.Fail(rt, "reference-vs-model", ref.Src, metaShape(v, c.Root), "[%s] reference rendering of a large program parses to a different structure than the generator's model: %s", v, d)
 		}
 		for i := 0; i < 2; i++ {
 			kind := rapid.SampledFrom([]phpgen.PolicyKind{phpgen.PolicyMinimal, phpgen.PolicyWhitespace, phpgen.PolicyFull}).Draw(rt, "policy")
@@ -110,7 +116,7 @@ func TestLargeVariants(t *testing.T) {
 				harness.Fail(rt, "variant-rejected", lay.Src, meta(v), "[%s] a large program parses cleanly with single spaces but not with this trivia: %s", v, bad)
 			}
 			if d := astx.Equal(r.Root, c.Root, astx.Structure); d != "" {
-				harness.Fail(rt, "structure-changed", lay.Src, meta(v), "[%s] trivia changed the tree of a large program (variant vs model): %s", v, d)
+				harness.Fail(rt, "structure-changed", lay.Src, metaShape(v, c.Root), "[%s] trivia changed the tree of a large program (variant vs model): %s", v, d)
 			}
 			if lay.Tokens > 1024 {
 				harness.Class("tokens>1024")
@@ -232,8 +238,17 @@ func TestReplay(t *testing.T) {
 		if vi.Meta["version"] != "" && vi.Meta["version"] != v.String() {
 			continue
 		}
-		if _, bad := parseOK(src, v); bad != "" {
+		r, bad := parseOK(src, v)
+		harness.Eval()
+		if bad != "" {
 			harness.Failf(t, vi.Check, src, meta(v), "[%s] %s", v, bad)
+			return
+		}
+		if want := vi.Meta["expected_shape"]; want != "" {
+			if got := astx.Shape(r.Root); got != want {
+				harness.Failf(t, vi.Check, src, vi.Meta, "[%s] the recorded source (still) parses to a different structure than its reference: %s", v, firstShapeDiff(want, got))
+				return
+			}
 		}
 	}
 }
@@ -308,9 +323,19 @@ func TestCorpusTriviaInsertion(t *testing.T) {
 			harness.Fail(rt, "insertion-rejected", edited, meta(v), "[%s] inserting %q before %s breaks a program that parses cleanly: %s\nedited: %q", v, triv, astx.TokString(toks[i]), bad, edited)
 		}
 		if d := astx.Equal(r.Root, ref.Root, astx.Structure); d != "" {
-			harness.Fail(rt, "insertion-structure-changed", edited, meta(v), "[%s] inserting %q before %s changed the tree: %s\nedited: %q", v, triv, astx.TokString(toks[i]), d, edited)
+			harness.Fail(rt, "insertion-structure-changed", edited, metaShape(v, ref.Root), "[%s] inserting %q before %s changed the tree: %s\nedited: %q", v, triv, astx.TokString(toks[i]), d, edited)
 		}
 		harness.Class("corpus-insertion")
 		harness.NonTrivial(edited, fmt.Sprintf("[%s +%q] %q", v, triv, trunc(edited, 200)))
 	})
+}
+
+func firstShapeDiff(want, got string) string {
+	lw, lg := strings.Split(want, "\n"), strings.Split(got, "\n")
+	for i := 0; i < len(lw) && i < len(lg); i++ {
+		if lw[i] != lg[i] {
+			return fmt.Sprintf("line %d: expected %q, parsed %q", i, strings.TrimSpace(lw[i]), strings.TrimSpace(lg[i]))
+		}
+	}
+	return fmt.Sprintf("%d vs %d lines", len(lw), len(lg))
 }
